@@ -52,7 +52,7 @@ def run_lian(proj, d, keep=False):
     if os.path.exists(d):
         shutil.rmtree(d)
     pdir, sdir = os.path.join(d, "proj"), os.path.join(d, "settings")
-    for rel, text in proj["files"].items():
+    for rel, text in sorted(proj["files"].items()):      # creation order = name order, whatever the dict order is
         p = os.path.join(pdir, rel)
         os.makedirs(os.path.dirname(p), exist_ok=True)
         with open(p, "w") as f:
@@ -173,7 +173,7 @@ def observe(wsd):
             return None
         return (fileof(d), line(d), d["attrs"].get("name"))
 
-    obs = {"files": sorted(unit_rel.values())}
+    obs = {"files": sorted(unit_rel.values()), "unit_order": [unit_rel[u] for u in sorted(unit_rel)]}
     # ---- call graph (P1 static): multiset of (caller, call line, callee text, callee | None)
     calls1 = collections.Counter()
     p = os.path.join(wsd, "semantic_p1", "call_graph_p1")
@@ -317,9 +317,26 @@ def dotted_imports(text):
 
 
 def choose_edit(rng, proj, kind, keep=G.KEEP):
-    """one valid edit of `kind` on a random file of the project, or None"""
+    """one valid edit of `kind` on a random file of the project, or None.  For swap / move the interesting variants
+    (definitions that mention each other at call time; functions other files import = re-export after the move) are
+    looked for in every file and preferred with probability 0.7."""
+    if kind in ("swap", "move") and rng.random() < 0.7:
+        special = []
+        rels0 = sorted(r for r in proj["files"] if os.path.splitext(r)[1] in LANG_OF_EXT)
+        for rel in rels0:
+            for _ in range(3):
+                e = _choose_edit_in(rng, proj, kind, keep, [rel])
+                if e is not None and (e.get("call_time_dependency") or e.get("reexport_importers")):
+                    special.append(e)
+                    break
+        if special:
+            return rng.choice(special)
     rels = sorted(r for r in proj["files"] if os.path.splitext(r)[1] in LANG_OF_EXT)
     rng.shuffle(rels)
+    return _choose_edit_in(rng, proj, kind, keep, rels)
+
+
+def _choose_edit_in(rng, proj, kind, keep, rels):
     for rel in rels:
         text = proj["files"][rel]
         lang = LANG_OF_EXT[os.path.splitext(rel)[1]]
@@ -1385,6 +1402,13 @@ def _run(ctx, proofs_ok, root):
                 failing.append({"layer": "meta", "label": label, "why": ["lian run failed on both versions: " + str(a.get("error"))[:300]],
                                 "files": vs[i]["files"], "edits": [e]})
                 continue
+            if e["kind"] == "move" and e.get("reexport_importers") and "error" not in b:
+                order = b.get("unit_order", [])
+                for imp_ in e["reexport_importers"]:
+                    if imp_ in order and e["file"] in order:
+                        stats["move_reexport_importer_%s_reexporter" % ("after" if order.index(imp_) > order.index(e["file"]) else "before")] += 1
+            if e["kind"] == "swap" and e.get("call_time_dependency"):
+                stats["swap_with_call_time_dependency"] += 1
             d = pair_diff(a, b, e)
             if gen:
                 # 'flows are identified by source line and sink line': on generated programs the reported lines must
@@ -1423,11 +1447,7 @@ def _run(ctx, proofs_ok, root):
     shrink_budget = 3 if tier == "quick" else 8
     n_reported = 0
     for label, va, e, d, gen, w in fail_pairs:
-        sig = (e.get("edit_kind", e["kind"]), tuple(sorted({x["what"] for x in d})))
-        if (sig in reported and reported[sig] >= 2) or (n_reported >= 6 and w is None):
-            stats["failing_pairs_not_reported_separately"] += 1
-            continue
-        reported[sig] = reported.get(sig, 0) + 1
+        # EVERY failing pair is classified (known finding or violation); only the number of replay files is capped
         if shrink_budget > 0 and w is None:
             shrink_budget -= 1
             va, e, d = shrink_pair(runner, va, e, d)
@@ -1444,6 +1464,8 @@ def _run(ctx, proofs_ok, root):
             ctx.known(fid, "%s edit %s: %d differences, e.g. %s" % (label, e.get("edit_kind", e["kind"]), len(d),
                                                                    json.dumps(jsonable(d[0]))[:300]))
             stats["known_pairs"] += 1
+        elif n_reported >= 6 and w is None:
+            stats["violations_not_reported_separately"] += 1
         else:
             n_reported += 1
             ctx.violation({"what": "analysis results differ across a meaning-preserving edit",
